@@ -791,7 +791,10 @@ def suite_compare(chk, model):
                 want_lines.append((i + 1, len(key) + 4))
     finally:
         shutil.rmtree(tmp, ignore_errors=True)
-    chk.sample({"suite": "COMPARE-E2E", "case": cases[7], "reported": by_key.get(cases[7][1], [])}, cap=14)
+    flagged = next((i for i, r in enumerate(impl) if r and ("key" in cases[i][1] or "Key" in cases[i][1])), 0)
+    chk.sample({"suite": "COMPARE-E2E", "case": cases[flagged],
+                "reported": [[common.l2s(r[0]), common.l2s(r[1]), r[2], r[3]] for r in impl[flagged]]},
+               cap=14)
     if model:
         outs = model.call(reqs)
         mouts = []
